@@ -1,7 +1,7 @@
 (* GENERATED from /repo by `vharness sites C12` on every run — do not edit *)
 From V Require Import Base.Bytes Model.Entry.
 Definition sites : list site := [
-  ((sb "layout"), false, [UOther (sb "io.WriteString(w, contentHTML)")]);
+  ((sb "layout"), false, [UCopyReturned]);
   ((sb "Render"), true, [UDelegate (sb "layout"); UDelegate (sb "layout"); UDelegate (sb "renderWithoutLayout")]);
   ((sb "renderWithoutLayout"), false, [UCopyReturned]);
   ((sb "RenderFile"), true, [UDelegate (sb "Render")]);
